@@ -172,6 +172,8 @@ def reactor_case(draw):
         multi['multi_T'] = [draw(st.floats(300, 900)) for _ in range(draw(st.integers(1, 3)))]
     if draw(st.integers(0, 3)) == 0:
         multi['multi_P'] = [draw(st.floats(0.5, 5)) for _ in range(draw(st.integers(1, 3)))]
+    if draw(st.integers(0, 3)) == 0:
+        multi['multi_flow_rate'] = [draw(st.floats(0.5, 50)) for _ in range(draw(st.integers(1, 3)))]
     return {'units': units, 'opts': opts, 'multi': multi, 'with_phases': draw(st.sampled_from(['list', 'list', 'none', 'dict']))}
 
 
@@ -232,7 +234,14 @@ def check_reactor(case, ctx):
     for name, (sec, key, utpl) in DIM_OPTS.items():
         got = lookup(sec, key)
         if name not in case['opts']:
-            if name == 'P' and 'multi_P' in case['multi']:
+            if 'multi_' + name in case['multi']:
+                # the first value of the sweep doubles as the base case
+                w0 = case['multi']['multi_' + name][0]
+                m = re.match(r'^\s*"?([-+0-9.eE]+)\s*([^"]*)?"?\s*$', str(got))
+                unit0 = utpl.format(**udict) if units is not None else ''
+                if not m or abs(float(m.group(1)) - w0) > 1e-6 * abs(w0) or (m.group(2) or '').replace(' ', '') != unit0.replace(' ', ''):
+                    ctx.fail('C07.reactor/base-case-from-sweep:%s' % name, 'sweep %r, base entry %r (expected "%s %s")' % (
+                        case['multi']['multi_' + name], got, w0, unit0))
                 continue
             if got != '<absent>':
                 ctx.fail('C07.reactor/key-for-omitted-option:%s' % name, repr(got))
@@ -252,6 +261,12 @@ def check_reactor(case, ctx):
         got = lookup(sec, key)
         if name not in case['opts']:
             if name == 'T' and 'multi_T' in case['multi']:
+                try:
+                    ok0 = abs(float(got) - case['multi']['multi_T'][0]) <= 1e-6 * case['multi']['multi_T'][0]
+                except (TypeError, ValueError):
+                    ok0 = False
+                if not ok0:
+                    ctx.fail('C07.reactor/base-case-from-sweep:T', 'sweep %r, base entry %r' % (case['multi']['multi_T'], got))
                 continue
             if got != '<absent>':
                 ctx.fail('C07.reactor/key-for-omitted-option:%s' % name, repr(got))
@@ -272,7 +287,8 @@ def check_reactor(case, ctx):
                 ok = False
         if not ok:
             ctx.fail('C07.reactor/value:%s' % o['form'], '%s: supplied %r, file has %r' % (name, kwargs[name], got))
-    for name, key, utpl in (('multi_T', 'temperature', None), ('multi_P', 'pressure', '{pressure}')):
+    for name, key, utpl in (('multi_T', 'temperature', None), ('multi_P', 'pressure', '{pressure}'),
+                            ('multi_flow_rate', 'flow_rate', '{length}3/{time}')):
         got = lookup('simulation/multi_input', key)
         if name not in case['multi']:
             if got != '<absent>':
@@ -296,6 +312,8 @@ def check_reactor(case, ctx):
         allowed.update(['simulation/multi_input/temperature', 'reactor/temperature'])   # (first value doubles as the base case)
     if 'multi_P' in case['multi']:
         allowed.update(['simulation/multi_input/pressure', 'reactor/pressure'])
+    if 'multi_flow_rate' in case['multi']:
+        allowed.update(['simulation/multi_input/flow_rate', 'inlet_gas/flow_rate'])
 
     def leaves(node, path):
         if isinstance(node, dict) and node:
@@ -950,7 +968,7 @@ CLAUSES = [
     Clause('C07.reactor', reactor_case(), check_reactor, 600, 5000,
            'every dimensional reactor option independently omitted or given as Python int/float, numpy float64/float32/int64 or a '
            '"value unit" string; plain options (types, modes, tolerances, flags) omitted or given (Python / numpy numbers); multi_T / '
-           'multi_P lists; units None (SI) or a full Units choice; phases as list, dict or omitted. Oracle: the loaded YAML has a key for '
+           'multi_P / multi_flow_rate lists (first value = base case); units None (SI) or a full Units choice; phases as list, dict or omitted. Oracle: the loaded YAML has a key for '
            'every supplied option with its value and unit and no key for an omitted one. Non-trivial = at least one numpy value and one '
            'string value', quick_shards=2),
     Clause('C07.model', model_case(), check_model, 300, 1500,
